@@ -381,8 +381,11 @@ def segments_intersect_facets(segments, facets, eps=1e-6):
         sv = np.sum((t[i] - s[1]) * np.cross(t[j] - s[1], s[0] - s[1]), axis=1)
         v.append(np.sign(sv))
 
-    # same volume if s and t have same sign in v0, v1 and v2
-    same_volume = np.logical_and((v[0] == v[1]), (v[1] == v[2]))
+    # same volume if s and t have same sign in v0, v1 and v2; a zero means that the
+    # segment passes exactly through an edge (or vertex) of the triangle, which is
+    # an intersection as well (the end points of s are off the plane, see `cross`)
+    v = np.array(v)
+    same_volume = np.all(v >= 0, axis=0) | np.all(v <= 0, axis=0)
 
     return cross * same_volume
 
